@@ -374,6 +374,32 @@ class KGen:
             if not self.ctxs:
                 return None
             return {"op": "state", "t": t, "c": rng.choice(list(self.ctxs))}
+        if kind == "inject" and rng.random() < self.p_pair * 0.35:
+            # scripted: two tasks in two different contexts, each context with factories of its own for the same two
+            # pairs (a synchronous one and an asynchronous one that really suspends); one injected coroutine function
+            # with both as parameters, called by both tasks at the same time: each call gets its own context's products
+            live = [(t2, c2) for t2, c2 in self.cur.items() if c2 is not None and self.ctxs[c2]["state"] == "open"
+                    and not self.ctxs[c2].get("comp")]
+            pairs = [(a, b) for a in live for b in live if a[0] < b[0] and a[1] != b[1]]
+            if pairs:
+                (t1, c1), (t2, c2) = rng.choice(pairs)
+                ty0, ty1 = rng.sample(range(NT), 2)
+                name = f"pp{self.next_fid}"
+                for c in (c1, c2):
+                    for ty, is_async in ((ty0, False), (ty1, True)):
+                        fid = self.next_fid
+                        self.next_fid += 1
+                        self.queue.append({"op": "addf", "t": 0, "c": c, "types": [ty], "name": name, "fid": fid, "desc": None,
+                                           "async": is_async, "gated": False, "failFirst": 0, "noneIn": False, "annot": False,
+                                           "single": True, "via": "method"})
+                        self.ctxs[c]["keys"].append((ty, name))
+                self.n_pairs += 1
+                deps = [{"param": "r0", "ty": ty0, "name": name, "opt": False, "form": "plain", "kind": "normal"},
+                        {"param": "r1", "ty": ty1, "name": name, "opt": False, "form": "plain", "kind": "normal"}]
+                op = {"op": "inject", "t": t1, "async": True, "deps": deps, "others": [], "badUnion": False, "future": False,
+                      "pair": self.n_pairs, "first": True}
+                self.queue += [op, {**op, "t": t2, "first": False}]
+                return self.queue.pop(0)
         if kind == "inject" and self.injects and rng.random() < self.p_again:
             # a function that has been called before is called again, in whatever context is current now (a request
             # handler serving one short-lived context after the other)
